@@ -42,6 +42,10 @@ def make_env(nbars, L, d, space, extras, late=False):
     pos = extra_positions(G, L)
     ex = [EventNBBO(pos[pi], A, 300.0 + 8 * j, 302.0 + 8 * j) for j, pi in enumerate(extras)]
     evs = bars + ex
+    if late == "revised":
+        # every quote of contract A is followed by a REVISION carrying the identical stamp (added to the transmitter later):
+        # "the last quote stamped <= t + latency" is then the revision - equal stamps keep their insertion order
+        evs = evs + [EventNBBO(e.time, e.contract, e.bid_price + 0.5, e.ask_price + 0.75) for e in bars + ex if e.contract is A]
     tr = Transmitter(list(G))
     tr.add_events(list(evs))
     sink = []
@@ -169,6 +173,12 @@ def units(tier):
         for extras in [[]] + [[i] for i in range(npos)]:
             for d, space in ((0, "box"), (1, "disc1")):
                 out.append((nbars, L, d, space, extras, "shared"))
+    # revised quotes (same stamp, inserted later) on a stream long enough (24+ events) for any unstable ordering to show
+    for L in (0, 30, 4.1):
+        npos = len(extra_positions(grid(8), L))
+        for extras in ([], [1], [npos - 3]) if L else ([],):
+            for d, space in ((0, "box"), (1, "disc1")):
+                out.append((8, L, d, space, extras, "revised"))
     # long episodes: the delay queue must not wrap, drop or repeat decisions after many steps
     for d, space in ((3, "box"), (2, "disc1")) if tier == "quick" else ((0, "box"), (1, "disc1"), (3, "box"), (4, "disc1"), (5, "box")):
         out.append((8 if tier == "quick" else 9, 30, d, space, []))
@@ -225,7 +235,7 @@ def run(tier, **kw):
     rep.set("rule", "one evaluation = one complete episode; enumerated: 5-bar stream (2 contracts, every bar a distinct price, spread 2) x latency "
                     "{0, 30s, 4.1s, 8.2s} x every subset of <= 1 (quick) / <= 2 (thorough) extra quotes over {t+1s, t+L, t+L+0.4s, t'-1s} of every consecutive "
                     "pair x delay {0,1,2,3} x {Box, Discrete with zero first allocation, Discrete with non-zero first allocation, Discrete whose flat allocation is not action 0} x all 3^4 "
-                    "action sequences over 3 pairwise-distinct actions, plus the latency > 0 configurations with price-free events added to the transmitter after the environment was built, and configurations whose transmitter was first used to build an environment with another latency (same environment reused across sequences via reset); non-trivial = "
+                    "action sequences over 3 pairwise-distinct actions, plus the latency > 0 configurations with price-free events added to the transmitter after the environment was built, configurations in which every quote of one contract is followed by a revision with the identical stamp (8 bars, 24+ events), and configurations whose transmitter was first used to build an environment with another latency (same environment reused across sequences via reset); non-trivial = "
                     "distinct (allocations executed, trade prices) outcome with delay > 0 or an extra quote")
     rep.set("samples", [{"nbars": 5, "L": 30, "d": 2, "space": "disc1", "extras": [1], "seq": [0, 2, 1, 1]}])
     rep.assumptions = ["with delay > 0 the null action belongs to the space (Box bounds include 0)",
